@@ -112,6 +112,10 @@ def expr(node, env, axes=None):
     if isinstance(node, ast.Call) and ast.unparse(node.func) in ('np.minimum', 'np.maximum') and len(node.args) == 2:
         f = 'Qmin' if ast.unparse(node.func) == 'np.minimum' else 'Qmax'
         return '(%s %s %s)' % (f, expr(node.args[0], env, axes), expr(node.args[1], env, axes))
+    if isinstance(node, ast.Call) and ast.unparse(node.func) in ('min', 'max') and len(node.args) == 2 and not node.keywords:
+        # the builtins on two numbers (e.g. a clamped range max(xmax - xmin, 1.0))
+        f = 'Qmin' if ast.unparse(node.func) == 'min' else 'Qmax'
+        return '(%s %s %s)' % (f, expr(node.args[0], env, axes), expr(node.args[1], env, axes))
     if isinstance(node, ast.Compare):
         return '(if %s then 1 else 0)' % bexpr(node, env)
     raise Unrecognised('expression %s' % key[:80])
